@@ -492,6 +492,14 @@ class LaserPath:
         -------
         None
         """
+        x, y, z, f, s = (np.asarray(a).astype(np.float32) for a in (x, y, z, f, s))
+        if not (np.all(np.isfinite(x)) and np.all(np.isfinite(y)) and np.all(np.isfinite(z))):
+            raise ValueError('Non-finite coordinate (NaN or infinity) in the path. Check the segment parameters.')
+        if not (np.all(np.isfinite(f)) and np.all(f > 0)):
+            raise ValueError('Translation speeds must be finite and positive. Check the speed parameters.')
+        if not np.all(np.isfinite(s)):
+            raise ValueError('Non-finite shutter state in the path.')
+
         self._x = np.append(self._x, x.astype(np.float32))
         self._y = np.append(self._y, y.astype(np.float32))
         self._z = np.append(self._z, z.astype(np.float32))
